@@ -13,6 +13,9 @@ What is PROVED here (for all instructions / states / inputs, no sampling):
   `PC' = PC + 4` except for a taken `bne`, `lw` after `sw` to the same address returns the stored
   word, memory is little endian, a store leaves every non-overlapping word alone, the `proc2mngr`
   stream only grows;
+* the accelerator CSRs 0x7E0..0x7FF as the tutorial's NullXcel implements them (one register behind all 32
+  numbers): `execX` / `stepX` / `runX` extend the interpreter conservatively, read-after-write through any pair of
+  numbers, frame conditions, and the invariants above carried over;
 * the checksum unit: `cksumRTL ws = cksumFL ws = cksumCL = cksumSpec ws` for every list of
   16-bit words of every length (the hardware has 8), and for every 128-bit message.
 
@@ -230,6 +233,175 @@ theorem run_count (fuel : Nat) (s : State) (n : Nat) :
     · simp
     · next s' _ => have := ih s' (n + 1); omega
 
+/-! ## accelerator CSRs: the NullXcel register behind xcelreg00..31 (`execX` / `stepX` / `runX`)
+
+No theorem above had to be restricted: the encoding theorems already cover every 12-bit CSR number, and the
+interpreter theorems are about `exec` / `step` / `run`, which are unchanged.  The theorems below show that the
+extension is conservative and carry the invariants over to `stepX` / `runX` (what the driver executes). -/
+
+/-- the accelerator-free ISA leaves accelerator accesses undefined ... -/
+theorem exec_xcel_undefined (s : State) (i : Inst) (h : i.isXcel = true) : exec s i = .error .undefined := by
+  cases i <;> simp only [Inst.isXcel] at h <;> try cases h
+  all_goals
+    simp only [isXcelCsr, Bool.and_eq_true, decide_eq_true_eq] at h
+    simp only [exec]
+    split
+    · next hc => simp only [CSR_MNGR2PROC, CSR_PROC2MNGR] at hc; omega
+    · rfl
+
+/-- ... and the extension changes nothing else: on every other instruction `execX` is `exec` on the core state with
+`xr0` untouched -/
+theorem execX_conservative (s : StateX) (i : Inst) (h : i.isXcel = false) :
+    execX s i = liftX s (exec s.core i) := by
+  cases i <;> simp only [Inst.isXcel] at h <;> simp [execX, h]
+
+theorem stepX_conservative (s : StateX) (i : Inst) (hf : fetch s.core = .ok i) (h : i.isXcel = false) :
+    stepX s = liftX s (step s.core) := by
+  unfold stepX step; rw [hf]; exact execX_conservative s i h
+
+/-- the three ways `execX` succeeds -/
+theorem execX_cases (s s' : StateX) (i : Inst) (h : execX s i = .ok s') :
+    (exec s.core i = .ok s'.core ∧ s'.xr0 = s.xr0) ∨
+    (∃ rd csr, i = .csrr rd csr ∧ isXcelCsr csr = true ∧ s'.xr0 = s.xr0 ∧
+      s'.core = { s.core with pc := (s.core.pc + 4) % W32, regs := rset s.core.regs rd s.xr0 }) ∨
+    (∃ csr rs1, i = .csrw csr rs1 ∧ isXcelCsr csr = true ∧ s'.xr0 = rget s.core.regs rs1 ∧
+      s'.core = { s.core with pc := (s.core.pc + 4) % W32 }) := by
+  have lift : ∀ r, liftX s r = .ok s' → r = .ok s'.core ∧ s'.xr0 = s.xr0 := by
+    intro r hr; unfold liftX at hr
+    split at hr
+    · cases hr; exact ⟨rfl, rfl⟩
+    · cases hr
+  cases i with
+  | csrr rd csr =>
+    simp only [execX] at h
+    split at h
+    · next hx => cases h; exact .inr (.inl ⟨rd, csr, rfl, hx, rfl, rfl⟩)
+    · exact .inl (lift _ h)
+  | csrw csr rs1 =>
+    simp only [execX] at h
+    split at h
+    · next hx => cases h; exact .inr (.inr ⟨csr, rs1, rfl, hx, rfl, rfl⟩)
+    · exact .inl (lift _ h)
+  | _ => exact .inl (lift _ (by simpa [execX] using h))
+
+/-- one register behind all 32 numbers: a read of ANY accelerator CSR returns what the last write to ANY accelerator
+CSR stored (NullXcel ignores the address) -/
+theorem xcel_read_after_write (s s1 s2 : StateX) (c1 rs1 rd c2 : Nat)
+    (h1 : execX s (.csrw c1 rs1) = .ok s1) (h2 : execX s1 (.csrr rd c2) = .ok s2)
+    (hc1 : isXcelCsr c1 = true) (hc2 : isXcelCsr c2 = true)
+    (hlen : s.core.regs.length = 32) (hrd : rd ≠ 0) (hrd' : rd < 32) :
+    rget s2.core.regs rd = rget s.core.regs rs1 ∧ s2.xr0 = rget s.core.regs rs1 := by
+  simp only [execX, hc1, if_true] at h1; cases h1
+  simp only [execX, hc2, if_true] at h2; cases h2
+  have hc : rd = rd ∧ rd ≠ 0 ∧ rd < s.core.regs.length := ⟨rfl, hrd, by omega⟩
+  exact ⟨by rw [rget_rset, if_pos hc], rfl⟩
+
+/-- only an accelerator write changes the accelerator register; the power-on value is 0 -/
+theorem xcel_reg_stable (s s' : StateX) (i : Inst) (h : execX s i = .ok s')
+    (hw : ∀ csr rs1, i = .csrw csr rs1 → isXcelCsr csr = false) : s'.xr0 = s.xr0 := by
+  rcases execX_cases s s' i h with ⟨_, h⟩ | ⟨_, _, _, _, h, _⟩ | ⟨csr, rs1, hi, hx, _, _⟩
+  · exact h
+  · exact h
+  · rw [hw csr rs1 hi] at hx; cases hx
+
+theorem xcel_reg_init (m : Mem) (inp : List Nat) : (StateX.init m inp).xr0 = 0 := rfl
+
+/-- well-formed state with the accelerator register -/
+def OkX (s : StateX) : Prop := s.core.Ok ∧ s.xr0 < W32
+
+theorem execX_ok (s s' : StateX) (i : Inst) (h : OkX s) (he : execX s i = .ok s') : OkX s' := by
+  rcases execX_cases s s' i he with ⟨hc, hx⟩ | ⟨rd, csr, _, _, hx, hc⟩ | ⟨csr, rs1, _, _, hx, hc⟩
+  · exact ⟨exec_ok s.core s'.core i h.1 hc, by rw [hx]; exact h.2⟩
+  · refine ⟨?_, by rw [hx]; exact h.2⟩
+    rw [hc]
+    exact ⟨by simp [rset_length, h.1.len], by simp [rget_rset_zero, h.1.x0],
+      rset_lt _ _ _ h.1.regs h.2, h.1.mem, h.1.inp, h.1.out, mod_W32_lt _⟩
+  · refine ⟨?_, by rw [hx]; exact h.1.regs rs1⟩
+    rw [hc]
+    exact ⟨h.1.len, h.1.x0, h.1.regs, h.1.mem, h.1.inp, h.1.out, mod_W32_lt _⟩
+
+theorem stepX_ok (s s' : StateX) (h : OkX s) (hs : stepX s = .ok s') : OkX s' := by
+  unfold stepX at hs
+  split at hs
+  · exact execX_ok s s' _ h hs
+  · cases hs
+
+theorem initX_ok (m : Mem) (inp : List Nat) (hm : ∀ a, m.get a < 256) (hi : ∀ v ∈ inp, v < W32) :
+    OkX (StateX.init m inp) := ⟨init_ok m inp hm hi, by simp [StateX.init, W32]⟩
+
+theorem runX_ok (fuel : Nat) (s : StateX) (n : Nat) (h : OkX s) : OkX (runX fuel s n).1 := by
+  induction fuel generalizing s n with
+  | zero => exact h
+  | succ f ih =>
+    unfold runX
+    split
+    · exact h
+    · next s' hs => exact ih s' (n + 1) (stepX_ok s s' h hs)
+
+/-- x0 stays 0 with the accelerator attached (a `csrr x0, xcelreg` is dropped like any other write to x0) -/
+theorem x0_stepX (s s' : StateX) (h : rget s.core.regs 0 = 0) (hs : stepX s = .ok s') :
+    rget s'.core.regs 0 = 0 := by
+  unfold stepX at hs
+  split at hs
+  · next i hf =>
+    rcases execX_cases s s' i hs with ⟨hc, _⟩ | ⟨rd, csr, _, _, _, hc⟩ | ⟨csr, rs1, _, _, _, hc⟩
+    · exact x0_step s.core s'.core h (by unfold step; rw [hf]; exact hc)
+    · rw [hc]; simp only [rget_rset_zero]; exact h
+    · rw [hc]; exact h
+  · cases hs
+
+theorem x0_runX (fuel : Nat) (s : StateX) (n : Nat) (h : rget s.core.regs 0 = 0) :
+    rget (runX fuel s n).1.core.regs 0 = 0 := by
+  induction fuel generalizing s n with
+  | zero => exact h
+  | succ f ih =>
+    unfold runX
+    split
+    · exact h
+    · next s' hs => exact ih s' (n + 1) (x0_stepX s s' h hs)
+
+/-- accelerator accesses never touch memory, the manager FIFOs, or (for writes) the register file -/
+theorem xcel_access_frame (s s' : StateX) (i : Inst) (hx : i.isXcel = true) (h : execX s i = .ok s') :
+    s'.core.mem.m = s.core.mem.m ∧ s'.core.inp = s.core.inp ∧ s'.core.out = s.core.out ∧
+    s'.core.pc = (s.core.pc + 4) % W32 := by
+  rcases execX_cases s s' i h with ⟨hc, _⟩ | ⟨_, _, _, _, _, hc⟩ | ⟨_, _, _, _, _, hc⟩
+  · rw [exec_xcel_undefined s.core i hx] at hc; cases hc
+  · rw [hc]; exact ⟨rfl, rfl, rfl, rfl⟩
+  · rw [hc]; exact ⟨rfl, rfl, rfl, rfl⟩
+
+/-- the `proc2mngr` sequence only grows, with the accelerator attached -/
+theorem runX_out_prefix (fuel : Nat) (s : StateX) (n : Nat) : s.core.out <+: (runX fuel s n).1.core.out := by
+  induction fuel generalizing s n with
+  | zero => exact List.prefix_refl _
+  | succ f ih =>
+    unfold runX
+    split
+    · exact List.prefix_refl _
+    · next s' hs =>
+      refine List.IsPrefix.trans ?_ (ih s' (n + 1))
+      unfold stepX at hs
+      split at hs
+      · next i hf =>
+        rcases execX_cases s s' i hs with ⟨hc, _⟩ | ⟨_, _, _, _, _, hc⟩ | ⟨_, _, _, _, _, hc⟩
+        · have := run_out_prefix 1 s.core 0
+          unfold run at this
+          have hstep : step s.core = .ok s'.core := by unfold step; rw [hf]; exact hc
+          rw [hstep] at this
+          simpa [run] using this
+        · rw [hc]; exact List.prefix_refl _
+        · rw [hc]; exact List.prefix_refl _
+      · cases hs
+
+theorem runX_count (fuel : Nat) (s : StateX) (n : Nat) :
+    n ≤ (runX fuel s n).2.1 ∧ (runX fuel s n).2.1 ≤ n + fuel := by
+  induction fuel generalizing s n with
+  | zero => simp [runX]
+  | succ f ih =>
+    unfold runX
+    split
+    · simp
+    · next s' _ => have := ih s' (n + 1); omega
+
 /-! ## checksum unit -/
 
 /-- ChecksumFL equals the specification for every word list -/
@@ -298,6 +470,13 @@ example : (exec { s0 with regs := [0, 3, 3] } (.bne 1 2 0x1ff8)).toOption.map (f
   decide
 example : (exec { s0 with regs := [0, 5] } (.csrw 0x7c0 1)).toOption.map (fun s => s.out) = some [5] := by decide
 example : (exec { s0 with regs := [0, 2] } (.lw 2 1 0)).toOption.map (fun s => s.pc) = none := by decide   -- unaligned: undefined
+-- accelerator: write through xcelreg05, read back through xcelreg31
+example : ((execX ⟨{ s0 with regs := [0, 0xabc] }, 0⟩ (.csrw 0x7E5 1)).toOption.bind
+    (fun s => (execX s (.csrr 2 0x7FF)).toOption)).map (fun s => (s.core.regs, s.xr0)) = some ([0, 0xabc], 0xabc) := by
+  decide                                      -- (register list has 2 entries here, so the write to x2 is out of range)
+example : (execX ⟨{ s0 with regs := [0, 5, 0] }, 9⟩ (.csrr 2 0x7E0)).toOption.map (fun s => s.core.regs) = some [0, 5, 9] := by
+  decide
+example : (exec s0 (.csrw 0x7E0 1)).toOption.map (fun s => s.pc) = none := by decide
 example : cksumSpec [1, 2, 3, 4, 5, 6, 7, 8] = 0x00780024 := by decide
 example : cksumRTL [0xffff, 0xffff, 0xffff, 0xffff, 0xffff, 0xffff, 0xffff, 0xffff] = 0xffdcfff8 := by decide
 
